@@ -25,9 +25,16 @@ slice-assigned, fn, tn, pwr / rssi, toa256, ci, tsc, tsc_set reassigned; the bur
 encodes again after every edit; every new encoding must decode (fresh object) to what the object now holds
 (C01:history:*:enc-after-inplace-change:<edit>); a decoder object used before parses the encoding, re-encodes
 (…:reencode-after-parse), gets its parsed burst and fn edited in place and re-encodes (…:reencode-after-inplace-change).
+Acceptance-driven leg (keys C01:accepted:...): the valid set is taken from the toolkit's own validate().  Candidates
+slightly beyond the protocol ranges (rx v1: every member of the toolkit's Modulation enum x TSC set 0..4 x TSC 0..8 x
+NOPE x burst length {148, 296, 444, 592, 740, own, None}; tx / rx v0: burst length {None, 0, 147..150, 443..447};
+boundary-1 / boundary / boundary+1 of fn, tn, pwr, rssi, toa256, ci one at a time and as a 4-value product) are built;
+every candidate validate() ACCEPTS must survive gen_msg() -> parse_msg() (fresh object) in every carried field and every
+burst bit; rejected candidates are only counted.
 Auxiliary leg "tables": the soft-bit translation -127..127 <-> 254..0
 is the identity on that range, and the hard/soft helpers keep polarity (0 <-> positive, 1 <-> negative).
 """
+import itertools
 from array import array
 
 from vlib import world
@@ -370,6 +377,218 @@ def history_viol(e, H, key, msg, hist, chunk, n):
     return (key, {"leg": "history-seq", "chunk": chunk, "n": n}, msg)
 
 
+# ---------------------------------------------------------------------------------------------
+# acceptance-driven leg: the valid set is what the toolkit's own validate() accepts
+
+FN_B = (-1, 0, 1, E.HYPER - 2, E.HYPER - 1, E.HYPER, E.HYPER + 1)
+TN_B = (-1, 0, 1, 6, 7, 8)
+PWR_B = (-1, 0, 1, 254, 255, 256)
+RSSI_B = (-121, -120, -119, -48, -47, -46)
+TOA_B = (-32769, -32768, -32767, 32766, 32767, 32768)
+CI_B = (-1281, -1280, -1279, 1279, 1280, 1281)
+V0_LENS_B = (None, 0, 147, 148, 149, 150, 443, 444, 445, 446, 447)
+V1_LENS_B = (148, 296, 444, 592, 740)
+ACC_SLICES = 16
+
+
+def candidates(dm):
+    """Candidate messages slightly BEYOND the protocol ranges, in a fixed order (plain dicts; 'mod' is the name of a member
+    of the toolkit's own Modulation enum, so that members added to it are covered too):
+      A  rx v1: every Modulation member x TSC set 0..4 x TSC 0..8 x NOPE x burst length {148, 296, 444, 592, 740, the
+         member's own, None} x legacy x 3 base points of the wide fields
+      B  tx v0/v1 and rx v0: burst length {None, 0, 147..150, 443..447} x legacy x TN 0..7 x 3 base points
+      C  boundary-1 / boundary / boundary+1 of fn, tn, pwr | rssi, toa256, ci one at a time at every base point of the
+         representative shapes (tx v0/v1, rx v0 148/444, rx v1 per modulation, rx v1 NOPE), and the complete product of
+         {min-1, min, max, max+1} of all of them at the mid base point of four shapes"""
+    mods = list(dm.Modulation.__members__)
+    for b in range(3):
+        B = E.BASES[b]
+        w = {"fn": B["fn"], "rssi": B["rssi"], "toa": B["toa"], "ci": B["ci"], "tn": (2, 5, 7)[b]}
+        for mod in mods:
+            own = dm.Modulation[mod].bl
+            lens = list(V1_LENS_B) + ([own] if own not in V1_LENS_B else []) + [None]
+            for ts in range(5):
+                for tsc in range(9):
+                    for nope in (False, True):
+                        for bl in lens:
+                            for legacy in (False, True):
+                                yield dict(w, grp="A", cls="rx", ver=1, legacy=legacy, nope=nope, mod=mod, tsc_set=ts, tsc=tsc, bl=bl)
+    for b in range(3):
+        B = E.BASES[b]
+        for bl in V0_LENS_B:
+            for legacy in (False, True):
+                for tn in range(8):
+                    for ver in (0, 1):
+                        yield dict(grp="B", cls="tx", ver=ver, legacy=legacy, tn=tn, fn=B["fn"], pwr=B["pwr"], bl=bl)
+                    yield dict(grp="B", cls="rx", ver=0, legacy=legacy, tn=tn, fn=B["fn"], rssi=B["rssi"], toa=B["toa"], ci=None,
+                               nope=False, mod=None, tsc_set=None, tsc=None, bl=bl)
+    shapes = [dict(cls="tx", ver=0, bl=148), dict(cls="tx", ver=1, bl=444),
+              dict(cls="rx", ver=0, bl=148, nope=False, mod=None, tsc_set=None, tsc=None),
+              dict(cls="rx", ver=0, bl=444, nope=False, mod=None, tsc_set=None, tsc=None)]
+    shapes += [dict(cls="rx", ver=1, bl=dm.Modulation[m].bl, nope=False, mod=m, tsc_set=1, tsc=5) for m in mods]
+    shapes += [dict(cls="rx", ver=1, bl=None, nope=True, mod=None, tsc_set=None, tsc=None)]
+    for sh in shapes:
+        tx = sh["cls"] == "tx"
+        sets = [("fn", FN_B), ("tn", TN_B)] + ([("pwr", PWR_B)] if tx else [("rssi", RSSI_B), ("toa", TOA_B), ("ci", CI_B)])
+        for b in range(3):
+            B = E.BASES[b]
+            base = dict(sh, grp="C", legacy=bool(b & 1), tn=(2, 5, 7)[b], fn=B["fn"])
+            if tx:
+                base["pwr"] = B["pwr"]
+            else:
+                base.update(rssi=B["rssi"], toa=B["toa"], ci=B["ci"])
+            for f, vals in sets:
+                for v in vals:
+                    c = dict(base)
+                    c[f] = v
+                    yield c
+    for sh in (shapes[0], shapes[2], shapes[4], shapes[-1]):
+        tx = sh["cls"] == "tx"
+        sets = [("fn", FN_B), ("tn", TN_B)] + ([("pwr", PWR_B)] if tx else [("rssi", RSSI_B), ("toa", TOA_B), ("ci", CI_B)])
+        names = [f for f, _ in sets]
+        for combo in itertools.product(*[(v[0], v[1], v[-2], v[-1]) for _, v in sets]):
+            yield dict(sh, grp="C-product", legacy=False, **dict(zip(names, combo)))
+
+
+def build_candidate(dm, c):
+    """toolkit object for a candidate (fields may be out of range); -> (object, expected burst as list or None)"""
+    bl = c["bl"]
+    if c["cls"] == "tx":
+        m = dm.TxMsg(fn=c["fn"], tn=c["tn"], ver=c["ver"])
+        m.pwr = c["pwr"]
+        bits = None if bl is None else [i & 1 for i in range(bl)]
+        if bits is not None:
+            m.burst = bytearray(bits)
+        return m, bits
+    m = dm.RxMsg(fn=c["fn"], tn=c["tn"], ver=c["ver"])
+    m.rssi, m.toa256, m.ci, m.nope_ind = c["rssi"], c["toa"], c["ci"], c["nope"]
+    m.mod_type = None if c["mod"] is None else dm.Modulation[c["mod"]]
+    m.tsc_set, m.tsc = c["tsc_set"], c["tsc"]
+    bits = None if bl is None else [(i % 255) - 127 for i in range(bl)]
+    if bits is not None:
+        m.burst = array('b', bits)
+    return m, bits
+
+
+def check_accepted(e, c):
+    """-> (status, [(key, msg)]); status: 'rejected' | 'accepted' | 'other-exception'.  A candidate the toolkit's own
+    validate() accepts must survive gen_msg(legacy) -> parse_msg() on a fresh object in every field its version carries."""
+    dm = e["dm"]
+    cls, ver = c["cls"], c["ver"]
+    m, bits = build_candidate(dm, c)
+    try:
+        m.validate()
+    except ValueError:
+        return "rejected", []
+    except Exception:
+        return "other-exception", []          # C13's business
+    nope = cls == "rx" and ver == 1 and c["nope"]
+    pre = "C01:accepted:%s:v%d%s" % (cls, ver, ":nope" if nope else "")
+    try:
+        data = m.gen_msg(c["legacy"])
+    except Exception as ex:
+        return "accepted", [("%s:gen-raises-%s" % (pre, type(ex).__name__), "validate() accepts the message, gen_msg() raises %s(%s)"
+                             % (type(ex).__name__, ex))]
+    p = dm.TxMsg() if cls == "tx" else dm.RxMsg()
+    try:
+        p.parse_msg(bytes(data) if cls == "tx" else bytearray(data))
+    except Exception as ex:
+        return "accepted", [("%s:parse-raises-%s" % (pre, type(ex).__name__), "validate() accepts the message (%s), parse_msg() of its "
+                             "own encoding raises %s(%s)" % (_cdesc(c), type(ex).__name__, ex))]
+    out = []
+
+    def cmp(field, got, exp):
+        if got != exp:
+            out.append(("%s:%s" % (pre, field), "%s: the accepted message (%s) has %r, its own encoding %s... decodes to %r"
+                        % (field, _cdesc(c), exp, bytes(data[:11]).hex(), got)))
+
+    cmp("ver", p.ver, ver)
+    cmp("fn", p.fn, c["fn"])
+    cmp("tn", p.tn, c["tn"])
+    if cls == "tx":
+        cmp("pwr", p.pwr, c["pwr"])
+    else:
+        cmp("rssi", p.rssi, c["rssi"])
+        cmp("toa256", p.toa256, c["toa"])
+        if ver == 1:
+            cmp("nope_ind", p.nope_ind, c["nope"])
+            cmp("ci", p.ci, c["ci"])
+            if not nope:
+                if p.mod_type is not dm.Modulation[c["mod"]]:
+                    out.append((pre + ":mod_type", "mod_type: the accepted message (%s) has %s, its own encoding %s... decodes to %r"
+                                % (_cdesc(c), c["mod"], bytes(data[:11]).hex(), p.mod_type)))
+                cmp("tsc_set", p.tsc_set, c["tsc_set"])
+                cmp("tsc", p.tsc, c["tsc"])
+    if bits is None or (nope and not bits):
+        if p.burst is not None and len(p.burst):
+            out.append((pre + ":burst", "accepted without burst, decoded burst of %d bits" % len(p.burst)))
+    elif p.burst is None or list(p.burst) != bits:
+        out.append((pre + ":burst", "burst of the accepted message (%s): %s" % (_cdesc(c), "decoded None" if p.burst is None
+                                                                               else first_diff(p.burst, bits))))
+    return "accepted", out
+
+
+def _cdesc(c):
+    return " ".join("%s=%s" % (k, c[k]) for k in ("ver", "mod", "tsc_set", "tsc", "nope", "bl", "legacy", "fn", "tn", "pwr", "rssi", "toa", "ci")
+                    if c.get(k) is not None)
+
+
+def table_valid(c):
+    """is the candidate inside the protocol ranges of the property text (informative counter only)"""
+    if not (0 <= c["fn"] < E.HYPER and 0 <= c["tn"] <= 7):
+        return False
+    if c["cls"] == "tx":
+        return 0 <= c["pwr"] <= 255 and c["bl"] in (148, 444)
+    if not (-120 <= c["rssi"] <= -47 and -32768 <= c["toa"] <= 32767):
+        return False
+    if c["ver"] == 0:
+        return c["bl"] in (148, 444)
+    if c["ci"] is None or not -1280 <= c["ci"] <= 1280:
+        return False
+    if c["nope"]:
+        return c["bl"] is None
+    name = E_FROM_TK.get(c["mod"])
+    return (name is not None and 0 <= c["tsc_set"] < E.MOD_NSETS[name] and 0 <= c["tsc"] <= 7 and c["bl"] == E.MOD_BL[name])
+
+
+E_FROM_TK = {v: k for k, v in E.TK_NAME.items()}
+
+
+def work_accepted(i):
+    e = env()
+    cov = {"accept_candidates": 0, "accept_accepted": 0, "accept_rejected": 0, "accept_other_exception": 0,
+           "accept_accepted_beyond_table": 0, "accept_rejected_inside_table": 0, "accept_by_group": {}, "accept_accepted_by_class": {}}
+    viol, vkeys, nviol = [], set(), 0
+    sample = None
+    for n, c in enumerate(candidates(e["dm"])):
+        if n % ACC_SLICES != i:
+            continue
+        cov["accept_candidates"] += 1
+        cov["accept_by_group"][c["grp"]] = cov["accept_by_group"].get(c["grp"], 0) + 1
+        st, r = check_accepted(e, c)
+        tv = table_valid(c)
+        if st == "accepted":
+            cov["accept_accepted"] += 1
+            kl = E.class_of(c)
+            cov["accept_accepted_by_class"][kl] = cov["accept_accepted_by_class"].get(kl, 0) + 1
+            if sample is None:
+                sample = c
+            if not tv:
+                cov["accept_accepted_beyond_table"] += 1
+        elif st == "rejected":
+            cov["accept_rejected"] += 1
+            if tv:
+                cov["accept_rejected_inside_table"] += 1
+        else:
+            cov["accept_other_exception"] += 1
+        for key, msg in r:
+            nviol += 1
+            if key not in vkeys:
+                vkeys.add(key)
+                viol.append((key, {"leg": "accepted", "cand": c}, msg))
+    return {"cov": cov, "viol": viol, "nviol_extra": nviol - len(viol), "samples": [sample] if sample else []}
+
+
 def check_tables(e):
     """auxiliary leg on the translation helpers used by gen/parse (and by trans()); -> list of (key, msg)"""
     Msg = e["dm"].Msg
@@ -478,6 +697,11 @@ def run(ctx):
                 ctx.sample(x)
     for r in ctx.pmap(work_tables, [0]):
         ctx.merge(r)
+    for i, r in enumerate(ctx.pmap(work_accepted, list(range(ACC_SLICES)))):
+        sm = r.pop("samples", [])
+        ctx.merge(r)
+        if i == 0:
+            ctx.cov["accept_example_accepted"] = sm[0] if sm else None
     c = ctx.cov
     c["points"] = len(E.points())
     c["fn_values_quick_set"] = len(E.fn_quick_set())
@@ -495,7 +719,12 @@ def run(ctx):
                  "chunk and every 256th of a sweep one object encodes, is edited in place (burst element first/middle/last, burst "
                  "slice-assigned, fn, tn, pwr/rssi, toa256, ci, tsc, tsc_set) and re-encodes after every edit, each encoding round-"
                  "tripped through a fresh decoder against the edited message; a used decoder object parses, re-encodes, gets its parsed "
-                 "burst and fn edited in place and re-encodes likewise. Work items, not worker processes, own these objects, so results do not depend on scheduling.")
+                 "burst and fn edited in place and re-encodes likewise. Acceptance-driven leg (accept_* counters, not part of "
+                 "evaluations): candidates slightly beyond the protocol ranges (rx v1: every Modulation member x TSC set 0..4 x TSC "
+                 "0..8 x NOPE x burst length {148,296,444,592,740,own,None} x legacy x 3 base points; tx/rx v0: burst length {None,0,"
+                 "147..150,443..447} x legacy x TN x 3 base points; boundary-1/boundary/boundary+1 of fn,tn,pwr,rssi,toa256,ci one at "
+                 "a time and as product of {min-1,min,max,max+1}); every candidate the toolkit's validate() accepts is round-tripped "
+                 "and compared in every carried field and burst bit, rejected ones are counted. Work items, not worker processes, own these objects, so results do not depend on scheduling.")
     c["exhaustive"] = True
     ctx.assumptions += ["joint products of wide fields are not enumerated (one wide field at a time at 3 base points)",
                         "burst contents are the stated pattern families, not {0,1}^n / [-127,127]^n",
@@ -506,6 +735,10 @@ def replay(ctx, case):
     e = env()
     if case.get("leg") == "tables":
         for k, m in check_tables(e):
+            ctx.violation(k, case, m)
+        return
+    if case.get("leg") == "accepted":
+        for k, m in check_accepted(e, case["cand"])[1]:
             ctx.violation(k, case, m)
         return
     if case.get("leg") == "inplace":
